@@ -79,8 +79,18 @@ class Build:
         linked against this build's copy of the repository sources)."""
         return _build_harness(self.root, name)
 
-    def stubmod(self):
-        return _build_harness(self.root, "stubmod")
+    STUB_VARIANTS = {"": [], "all": [], "nopost": ["-DNO_POSTINIT"], "nodtor": ["-DNO_DTOR"],
+                     "neither": ["-DNO_POSTINIT", "-DNO_DTOR"]}
+
+    def stubmod(self, variant=""):
+        """harness/stubmod.c as a shared object.  variant: "" / "all" (all three entry points),
+        "nopost" (no module_post_init), "nodtor" (no module_destructor), "neither"."""
+        if variant not in self.STUB_VARIANTS:
+            raise BuildError("unknown stub module variant %r" % (variant,))
+        if variant in ("", "all"):
+            return _build_harness(self.root, "stubmod")
+        return _build_harness(self.root, "stubmod", extra_defs=self.STUB_VARIANTS[variant],
+                              outname="stubmod_" + variant)
 
 
 def _defs(root):
@@ -89,7 +99,10 @@ def _defs(root):
             '-DMODULESDIR="%s/mods"' % root, '-DLOGDIR="."', "-I" + copy, "-w"]
 
 
-def _build_harness(root, name):
+def _build_harness(root, name, extra_defs=(), outname=None):
+    """extra_defs / outname: a variant of the same harness source compiled with additional -D flags
+    under its own output name (the name keys the lock and the clean-up of older builds)."""
+    srcname = name
     hp = os.path.join(VERIF, "harness", name + ".c")
     if not os.path.exists(hp):
         raise BuildError("no such harness source: " + hp)
@@ -98,6 +111,8 @@ def _build_harness(root, name):
     with open(hp, "rb") as f:
         data = f.read()
     hh.update(data)
+    if extra_defs:
+        hh.update(" ".join(extra_defs).encode())
     for n in sorted(os.listdir(hdir_src)):          # headers shared by harnesses
         if n.endswith(".h"):
             with open(os.path.join(hdir_src, n), "rb") as f:
@@ -105,7 +120,8 @@ def _build_harness(root, name):
     tag = hh.hexdigest()[:12]
     hdir = os.path.join(root, "h")
     os.makedirs(hdir, exist_ok=True)
-    is_so = name == "stubmod" or data.startswith(b"// SHARED")
+    is_so = srcname == "stubmod" or data.startswith(b"// SHARED")
+    name = outname or srcname
     out = os.path.join(hdir, "%s-%s%s" % (name, tag, ".so" if is_so else ""))
     if os.path.exists(out):
         return out
@@ -122,9 +138,9 @@ def _build_harness(root, name):
                     link.append(os.path.join(copy, w))
         tmp = out + ".tmp%d" % os.getpid()
         if is_so:
-            cmd = ["gcc"] + SAN + _defs(root) + ["-shared", "-fPIC", hp] + link + ["-o", tmp]
+            cmd = ["gcc"] + SAN + _defs(root) + list(extra_defs) + ["-shared", "-fPIC", hp] + link + ["-o", tmp]
         else:
-            cmd = (["gcc"] + SAN + _defs(root) + ["-I" + hdir_src, hp] + link
+            cmd = (["gcc"] + SAN + _defs(root) + list(extra_defs) + ["-I" + hdir_src, hp] + link
                    + ["-rdynamic", "-levent", "-ldl", "-lm", "-lrt", "-o", tmp])
         p = subprocess.run(cmd, cwd=copy, stdout=subprocess.PIPE, stderr=subprocess.STDOUT, text=True)
         if p.returncode != 0:
